@@ -152,6 +152,16 @@ func main() {
 		st := r.Intn(len(tbl)+2) - 1
 		h, hok := fx.Chase(tbl, st)
 		ex("go_Chase "+fuel+" "+bytesL(tbl)+" "+z(st), "Some ("+z(h)+", "+b(hok)+")")
+		cp := 1 + r.Intn(4)
+		rg := fx.Ring{Buf: make([]int, cp)}
+		pre := ri(3, 1, 9)
+		rg.PushAll(pre)
+		rgBefore := fx.Ring{Buf: append([]int{}, rg.Buf...), Head: rg.Head, N: rg.N}
+		more := ri(6, 1, 9)
+		dr := rg.PushAll(more)
+		ring := func(g fx.Ring) string { return "(mk_T_Ring " + intL(g.Buf) + " " + z(g.Head) + " " + z(g.N) + ")" }
+		ex("go_Ring_PushAll "+ring(rgBefore)+" "+intL(more), "("+z(dr)+", "+ring(rg)+")")
+		ex("go_Ring_Sum "+fuel+" "+ring(rg), "Some "+z(rg.Sum()))
 		ma, mb := r.Uint32(), uint8(r.Intn(256))
 		ex("go_Mix "+nn(uint64(ma))+" "+nn(uint64(mb)), nn(uint64(fx.Mix(ma, mb))))
 	}
